@@ -395,6 +395,10 @@ func (g *Gen) ledgerScenario(steps int) {
 				g.emit(fmt.Sprintf("truncate %d", b))
 				g.emit("lcheck")
 			}
+		case x < 18 && g.r.Chance(1, 2): // two requests in flight at once
+			g.lraceCase(stored)
+		case x < 19 && g.r.Chance(1, 2): // table scans that break off (storage read fault)
+			g.ifaultCase(stored)
 		case x < 19:
 			a := stored[g.r.Intn(len(stored))]
 			b := stored[g.r.Intn(len(stored))]
